@@ -16,21 +16,22 @@ theorem frameAll_append (a b : Bytes) : ∀ fs, frameAll fs (a ++ b) =
 theorem frameAll_cons (fs : FS) (b : UInt8) (r : Bytes) :
     frameAll fs (b :: r) = ((frameAll (frameByte fs b).1 r).1, (frameByte fs b).2 ++ (frameAll (frameByte fs b).1 r).2) := rfl
 
-theorem frame_payload (ty : UInt8) (need : Nat) : ∀ (q p : Bytes), q ≠ [] → p.length + q.length = need →
-    frameAll (.pay ty need p) q = (.hdr [], [(ty, p ++ q)]) := by
+theorem frame_payload (ty : UInt8) : ∀ (q p : Bytes) (need : Nat), q ≠ [] → q.length = need →
+    frameAll (.pay ty need p) q = (.hdr [], [(ty, p.reverse ++ q)]) := by
   intro q
   induction q with
-  | nil => intro p h; exact absurd rfl h
+  | nil => intro p need h; exact absurd rfl h
   | cons b r ih =>
-    intro p _ hlen
+    intro p need _ hlen
     simp only [List.length_cons] at hlen
     cases r with
     | nil =>
       simp only [List.length_nil] at hlen
-      simp [frameAll, frameByte, hlen]
+      have : need ≤ 1 := by omega
+      simp [frameAll, frameByte, this]
     | cons b2 r2 =>
-      have hne : ¬ (p.length + 1 = need) := by simp only [List.length_cons] at hlen; omega
-      have := ih (p ++ [b]) (by simp) (by simp only [List.length_append, List.length_cons, List.length_nil] at hlen ⊢; omega)
+      have hne : ¬ (need ≤ 1) := by simp only [List.length_cons] at hlen; omega
+      have := ih (b :: p) (need - 1) (by simp) (by simp only [List.length_cons] at hlen ⊢; omega)
       rw [frameAll_cons]
       simp only [frameByte, hne, if_false]
       rw [this]; simp
@@ -48,8 +49,8 @@ theorem frame_encode (r : Rec) (h : r.2.length < 65536) : frameAll .init (encode
   | nil => simp [encode, frameAll, frameByte, FS.init]
   | cons b q =>
     have hlen : (b :: q).length ≠ 0 := by simp
-    have := frame_payload ty (b :: q).length (b :: q) [] (by simp) (by simp)
-    simp only [List.nil_append] at this
+    have := frame_payload ty (b :: q) [] (b :: q).length (by simp) rfl
+    simp only [List.reverse_nil, List.nil_append] at this
     simp only [encode, FS.init]
     rw [frameAll_cons, frameAll_cons, frameAll_cons]
     simp only [frameByte, List.nil_append, List.cons_append, hn, hlen, if_false]
